@@ -38,6 +38,8 @@ type coopTask struct {
 }
 
 type coopSched struct {
+	hook    *func(string) // the yield seam to install (default: crypto.SimYield, hook H7)
+	points  []string      // yield points reported, in decision order (diagnostics)
 	tasks   []*coopTask
 	cur     *coopTask
 	clock   int64
@@ -64,8 +66,12 @@ func (s *coopSched) run(fns []func(), choices []int, maxSteps int) error {
 			t.event <- ""
 		}(t, fn)
 	}
-	crypto.SimYield = s.yield
-	defer func() { crypto.SimYield = nil }()
+	hook := s.hook
+	if hook == nil {
+		hook = &crypto.SimYield
+	}
+	*hook = s.yield
+	defer func() { *hook = nil }()
 	for step := 0; ; step++ {
 		var runnable []*coopTask
 		alive := 0
@@ -81,7 +87,7 @@ func (s *coopSched) run(fns []func(), choices []int, maxSteps int) error {
 			return nil
 		}
 		if len(runnable) == 0 {
-			return fmt.Errorf("all tasks blocked on the nonce mutex")
+			return fmt.Errorf("all tasks blocked on a mutex")
 		}
 		if step > maxSteps {
 			return fmt.Errorf("schedule did not terminate within %d decisions", maxSteps)
@@ -97,6 +103,7 @@ func (s *coopSched) run(fns []func(), choices []int, maxSteps int) error {
 		s.clock++
 		t.resume <- struct{}{}
 		ev := <-t.event
+		s.points = append(s.points, fmt.Sprintf("t%d:%s", t.id, ev))
 		if ev == "" {
 			t.done = true
 		}
